@@ -1,47 +1,465 @@
-import MqttVerif.Conn.Lemmas.Basic
+import MqttVerif.Conn.Lemmas.StoreSend
+import MqttVerif.Props.C07
 /-!
-# C06 — outbound QoS 1/2: stored until acknowledged (first instalment)
+# C06 — outbound QoS 1/2: stored until acknowledged, retransmitted on session resume   (agent P7)
+
+* (1) `C06_accepted_publish_not_dropped`
+* (2) `C06_stored_until_acked` (`Leaves`: the complete list of ways an entry leaves the store in one
+  call).  NOT proved here: "the identifier of a stored entry stays in use" (`C06_id_held_full`).
+* (3) `C06_unmatched_ack_is_error_noop_v3` / `_v5`
+* (4) `C06_resume_resends_client_v3` / `_client_v5` / `_server`; `C06_stored_publish_regulated_partial`
+  (the invariant itself is stated as `C06_stored_publish_regulated_full`, not proved)
+* (5) `C06_no_session_clears_connack` / `_connect`
+* witnesses: `C06Ex.finding20_server_connack_sp_false_still_resends`, `C06Ex.pubrec_0x10_releases_id`
+`ParseOk` (from C07): the parser returns packets of the type it was invoked for.
 -/
-set_option linter.unusedSimpArgs false
-set_option linter.unusedVariables false
 namespace MqttVerif.Conn
 open MqttVerif
+set_option linter.unusedSimpArgs false
 
-/-- fix (finding #13): a QoS>0 PUBLISH passes the gate only if it will be sent now or stored —
-    the gate admits no state in which it would be silently dropped -/
-theorem C06_gate_sent_or_stored (s : St) (h : pubNotAllowed s = false) :
-    s.status = .connected ∨ willStore s = true := by
-  unfold pubNotAllowed at h
-  unfold willStore
-  by_cases hc : s.status = .connected
-  · exact Or.inl hc
-  · right
-    simp only [hc, not_false_eq_true, true_and, Bool.not_eq_true', decide_eq_false_iff_not,
-      Decidable.not_not] at h
-    have h' := by simpa using h
-    have h2 := h' hc
-    simp only [Bool.and_eq_true, decide_eq_true_eq, Bool.or_eq_true]
-    refine ⟨h2.1, ?_⟩
-    by_cases hd : s.status = .disconnected
-    · exact Or.inr (h2.2 hd)
-    · exact Or.inl (by simpa using hd)
+/-! ## (3) an acknowledgement that matches nothing in flight: protocol error, nothing changes -/
 
-/-- an acknowledgement erases a stored packet only when kind *and* version of the expected
-    response match; otherwise the store is unchanged -/
-theorem C06_storeErase_only_matching (ver : Nat) (resp : Kind) (id : Nat) (st : List (Nat × Pkt)) :
-    (∀ p, lookup id st = some p → ¬ (respOf p = resp ∧ p.ver = ver) → storeErase ver resp id st = st) ∧
-    (lookup id st = none → storeErase ver resp id st = st) := by
-  constructor
-  · intro p hl hne; simp [storeErase, hl, hne]
-  · intro hl; simp [storeErase, hl]
+theorem dispatch_unmatched (c : C) (t : Nat) (p : Pkt) (ht : t = 4 ∨ t = 5 ∨ t = 7)
+    (hn : p.pid.getD 0 ∉ waitSet c.s t) : dispatchRecv c t (.ok p) = vErr c eProtocol := by
+  rcases ht with rfl | rfl | rfl <;> simp [waitSet] at hn <;> simp [dispatchRecv, prPuback, prPubrec, prPubcomp, hn]
 
-/-- a new session empties the store and the in-flight sets and frees every identifier -/
-theorem C06_new_session_clears (c : C) :
-    (clearStoreRelated c).s.store = [] ∧ (clearStoreRelated c).s.puback = [] ∧
-    (clearStoreRelated c).s.pubrec = [] ∧ (clearStoreRelated c).s.pubcomp = [] ∧
-    (clearStoreRelated c).s.pidMan.pool = [⟨c.s.pidMan.lowest, c.s.pidMan.highest⟩] := by
-  simp [clearStoreRelated, Alloc.clear]
+/-- **C06 (3), v3.1.1**: a received PUBACK / PUBREC / PUBCOMP (parsed successfully) whose
+    identifier is not awaited: the events are exactly `[RequestClose, NotifyError(ProtocolError)]`
+    and the state is unchanged (apart from the consumed frame buffer): in particular `store`,
+    `pid_man` and the five wait sets. -/
+theorem C06_unmatched_ack_is_error_noop_v3 {cfg : Cfg} {s : St} {inp : List Nat} {pb' : Framing.PB} {fh : Nat}
+    {data : List Nat} (parse : Nat → Nat → List Nat → Except Nat Pkt) {p : Pkt}
+    (h : Delivers cfg s inp pb' fh data) (hv : s.ver = 4) (hp : parse 4 fh data = .ok p)
+    (ht : fh / 16 = 4 ∨ fh / 16 = 5 ∨ fh / 16 = 7) (hn : p.pid.getD 0 ∉ waitSet s (fh / 16)) :
+    (step cfg s (.recv inp parse)).ev = [.close, .error eProtocol] ∧
+    (step cfg s (.recv inp parse)).s = { s with pb := pb' } := by
+  rw [step_recv_of_delivers h, hv, hp, dispatch_unmatched _ _ _ ht (by simpa [waitSet] using hn)]
+  simp [vErr, hv, handleV3Error]
 
-example : pubNotAllowed { (St.init ⟨.client, 2⟩ 4) with needStore := true } = true := by decide
+theorem handleV5Error_connected (c : C) (e : Nat) (hs : c.s.status = .connected) :
+    errs (handleV5Error c e).ev = errs c.ev ++ [e] ∧
+    sends (handleV5Error c e).ev = sends c.ev ++
+      (if sizeOk c (mkV5Disconnect (errToDisconnectRc e)) then [mkV5Disconnect (errToDisconnectRc e)] else []) ∧
+    Ev.close ∈ (handleV5Error c e).ev ∧
+    (handleV5Error c e).ev.getLast? = some (.error e) := by
+  simp only [handleV5Error, v5DisconnectOrClose, psV5Disconnect]
+  cases hz : sizeOk c (mkV5Disconnect (errToDisconnectRc e)) <;> simp [hs, hz, sizeOk]
+
+theorem handleV5Error_not_connected (c : C) (e : Nat) (hs : c.s.status ≠ .connected) :
+    (handleV5Error c e).ev = c.ev ++
+      [.error (if sizeOk c (mkV5Disconnect (errToDisconnectRc e)) then eNotAllowed else eTooLarge), .error e] := by
+  simp only [handleV5Error, v5DisconnectOrClose, psV5Disconnect]
+  cases hz : sizeOk c (mkV5Disconnect (errToDisconnectRc e)) <;> simp [hs, hz]
+
+/-- **C06 (3), v5.0**: the unmatched acknowledgement leaves `store`, `pid_man` and the five wait
+    sets unchanged; the last event is `NotifyError(ProtocolError)`.
+    While connected: DISCONNECT(0x82) is requested (if the peer's Maximum Packet Size admits its 3
+    bytes), then `RequestClose`, and the only error event is the ProtocolError.  While not
+    connected: no send, no close; the error events are `[NotAllowed | PacketTooLarge, ProtocolError]`
+    (the inner attempt to send DISCONNECT is itself reported). -/
+theorem C06_unmatched_ack_is_error_noop_v5 {cfg : Cfg} {s : St} {inp : List Nat} {pb' : Framing.PB} {fh : Nat}
+    {data : List Nat} (parse : Nat → Nat → List Nat → Except Nat Pkt) {p : Pkt}
+    (h : Delivers cfg s inp pb' fh data) (hv : s.ver = 5) (hp : parse 5 fh data = .ok p)
+    (ht : fh / 16 = 4 ∨ fh / 16 = 5 ∨ fh / 16 = 7) (hn : p.pid.getD 0 ∉ waitSet s (fh / 16)) :
+    let c' := step cfg s (.recv inp parse)
+    (c'.s.store = s.store ∧ c'.s.pidMan = s.pidMan ∧ c'.s.puback = s.puback ∧ c'.s.pubrec = s.pubrec ∧
+      c'.s.pubcomp = s.pubcomp ∧ c'.s.suback = s.suback ∧ c'.s.unsuback = s.unsuback) ∧
+    c'.ev.getLast? = some (.error eProtocol) ∧
+    (s.status = .connected →
+      errs c'.ev = [eProtocol] ∧ Ev.close ∈ c'.ev ∧
+      sends c'.ev = if 3 ≤ s.mpsSend then [mkV5Disconnect 0x82] else []) ∧
+    (s.status ≠ .connected →
+      c'.ev = [.error (if 3 ≤ s.mpsSend then eNotAllowed else eTooLarge), .error eProtocol]) := by
+  intro c'
+  have e : c' = handleV5Error { cfg := cfg, s := { s with pb := pb' } } eProtocol := by
+    show step cfg s (.recv inp parse) = _
+    rw [step_recv_of_delivers h, hv, hp, dispatch_unmatched _ _ _ ht (by simpa [waitSet] using hn)]
+    simp [vErr, hv]
+  have hrc : errToDisconnectRc eProtocol = 0x82 := by decide
+  have hsz : sizeOk { cfg := cfg, s := { s with pb := pb' } } (mkV5Disconnect 0x82) = decide (3 ≤ s.mpsSend) := by
+    simp only [sizeOk, Pkt.sz, mkV5Disconnect]
+    by_cases h3 : 3 ≤ s.mpsSend <;> simp [h3] <;> omega
+  refine ⟨by rw [e]; simp, ?_, ?_, ?_⟩
+  · by_cases hs : s.status = .connected
+    · rw [e]; exact (handleV5Error_connected _ _ hs).2.2.2
+    · rw [e, handleV5Error_not_connected _ _ hs]; simp
+  · intro hs
+    obtain ⟨a, b, c, _⟩ := handleV5Error_connected { cfg := cfg, s := { s with pb := pb' } } eProtocol hs
+    rw [e]
+    refine ⟨by simpa using a, c, ?_⟩
+    rw [b, hrc, hsz]; simp
+  · intro hs
+    rw [e, handleV5Error_not_connected _ _ hs, hrc, hsz]; simp
+
+
+/-! ## (1) an accepted QoS 1/2 PUBLISH is sent or stored -/
+
+theorem errs_eq_nil_of_no_error {ev : List Ev} (h : ∀ e, Ev.error e ∉ ev) : errs ev = [] := by
+  apply List.eq_nil_iff_forall_not_mem.2
+  intro x hx
+  exact h x (mem_errs.1 hx)
+
+/-- **C06 (1)**: a QoS 1/2 PUBLISH that `send` accepts without a `NotifyError` is requested for
+    sending in this call (same identifier, a PUBLISH — possibly with its topic replaced by an
+    alias) or an entry with its identifier is in the store afterwards: never silently dropped.
+    Every configuration, state, both versions (any `p.ver`). -/
+theorem C06_accepted_publish_not_dropped (cfg : Cfg) (s : St) (p : Pkt) (id : Nat)
+    (hk : p.kind = .publish) (hq : p.qos = 1 ∨ p.qos = 2) (hid : p.pid = some id)
+    (hne : ∀ e, Ev.error e ∉ (step cfg s (.send p)).ev) :
+    (∃ q r, Ev.send q r ∈ (step cfg s (.send p)).ev ∧ q.pid = some id ∧ q.kind = .publish) ∨
+    (∃ q, (id, q) ∈ (step cfg s (.send p)).s.store) := by
+  have herr := errs_eq_nil_of_no_error hne
+  have hq' : p.qos > 0 := by omega
+  simp only [step, send] at herr ⊢
+  by_cases hv : s.ver ≠ p.ver
+  · simp [hv] at herr
+  · have hr : roleMaySend cfg.role p = true := by simp [roleMaySend, hk]
+    simp only [hv, if_false, hr, Bool.not_true, Bool.false_eq_true, processSend, hk] at herr ⊢
+    by_cases h4 : p.ver = 4
+    · simp only [h4, if_true] at herr ⊢
+      rcases psV3Publish_not_dropped _ p id hq' hid (by rw [herr]; rfl) with h | h
+      · obtain ⟨r, hr⟩ := mem_sends.1 h
+        exact .inl ⟨p, r, hr, hid, hk⟩
+      · exact .inr h
+    · simp only [h4, if_false] at herr ⊢
+      rcases psV5Publish_not_dropped _ p id hq' hid (by rw [herr]; rfl) with ⟨q, h1, h2, h3⟩ | h
+      · obtain ⟨r, hr⟩ := mem_sends.1 h1
+        exact .inl ⟨q, r, hr, h2, h3.trans hk⟩
+      · exact .inr h
+
+
+/-! ## (2) stored until acknowledged: every way an entry leaves the store in one call -/
+
+/-- the call re-establishes a connection on a present session: a CONNACK(0) was sent (server) or
+    a CONNACK(0, session present) was received (client) -/
+def Resumes (cfg : Cfg) (s : St) (op : Op) : Prop :=
+  (∃ p, op = .send p ∧ p.kind = .connack ∧ p.rc = some 0 ∧ p ∈ sends (step cfg s op).ev) ∨
+  (∃ p, recvs (step cfg s op).ev = [p] ∧ p.kind = .connack ∧ p.rc = some 0 ∧ p.sp = true)
+
+/-- the ways an entry with identifier `id` and packet `q` leaves the store in the call `op` -/
+inductive Leaves (cfg : Cfg) (s : St) (op : Op) (id : Nat) (q : Pkt) : Prop
+  /-- (i) the matching acknowledgement was received: a PUBACK / PUBREC / PUBCOMP with that
+      identifier, awaited (in the corresponding wait set), and the store's entry for the
+      identifier has that response kind AND that protocol version -/
+  | acked (p q0 : Pkt) : recvs (step cfg s op).ev = [p] →
+      (p.kind = .puback ∨ p.kind = .pubrec ∨ p.kind = .pubcomp) → p.pid.getD 0 = id →
+      id ∈ waitSet s p.kind.nibble → lookup id s.store = some q0 → respOf q0 = p.kind → q0.ver = p.ver →
+      Leaves cfg s op id q
+  /-- (ii) `erase_stored_publish(id)`, the entry for `id` being a PUBLISH -/
+  | erased (q0 : Pkt) : op = .erase id → lookup id s.store = some q0 → q0.kind = .publish → Leaves cfg s op id q
+  /-- (iii) dropped as oversize when the store is resent on resume -/
+  | oversizeOnResume : Resumes cfg s op → q.sz cfg.pw > (step cfg s op).s.mpsSend → Leaves cfg s op id q
+  /-- (iv) new session: CONNECT(clean) / CONNACK(no session) received … -/
+  | newSessionRecv (p : Pkt) : recvs (step cfg s op).ev = [p] → NewSessionPkt p →
+      (step cfg s op).s.store = [] → Leaves cfg s op id q
+  /-- … or CONNECT(clean) sent -/
+  | connectCleanSent (p : Pkt) : op = .send p → p.kind = .connect → p.clean = true →
+      (step cfg s op).s.store = [] → Leaves cfg s op id q
+  /-- (iv) non-persistent close -/
+  | closedNonPersistent : op = .closed → s.needStore = false → (step cfg s op).s.store = [] → Leaves cfg s op id q
+  /-- (v) the refusal cleanup of a v5.0 PUBLISH with this identifier (an error event is pushed) -/
+  | refused (p : Pkt) : op = .send p → p.kind = .publish → p.ver ≠ 4 → p.pid = some id →
+      (∃ e, Ev.error e ∈ (step cfg s op).ev) → Leaves cfg s op id q
+
+theorem ackKind_of_nibble {k : Kind} {t : Nat} (h : k.nibble = t) (ht : t = 4 ∨ t = 5 ∨ t = 7) :
+    k = ackKind t ∧ (k = .puback ∨ k = .pubrec ∨ k = .pubcomp) := by
+  rcases ht with rfl | rfl | rfl <;> cases k <;> simp [Kind.nibble, ackKind] at h ⊢
+
+/-- **C06 (2)**: an entry leaves the store only by (i)–(v). -/
+theorem C06_stored_until_acked (cfg : Cfg) (s : St) (op : Op) (hwf : OpWf op) (id : Nat) (q : Pkt)
+    (h1 : (id, q) ∈ s.store) (h2 : (id, q) ∉ (step cfg s op).s.store) : Leaves cfg s op id q := by
+  cases op with
+  | send p =>
+    rcases send_leaves { cfg := cfg, s := s } p h1 h2 with ⟨a, b, d⟩ | ⟨a, b, d, e⟩ | ⟨a, b, d, e⟩
+    · exact .connectCleanSent p rfl a b d
+    · refine .oversizeOnResume (.inl ⟨p, rfl, a, b, d⟩) ?_
+      have : (id, q) ∉ fits cfg.pw (step cfg s (.send p)).s.mpsSend s.store := by
+        have := e ▸ h2; exact this
+      rw [mem_fits] at this
+      have h3 : ¬ q.sz cfg.pw ≤ (step cfg s (.send p)).s.mpsSend := fun h => this ⟨h1, h⟩
+      omega
+    · refine .refused p rfl a b e ?_
+      have hne : errs (step cfg s (.send p)).ev ≠ [] := d
+      cases hl : errs (step cfg s (.send p)).ev with
+      | nil => exact absurd hl hne
+      | cons x t => exact ⟨x, mem_errs.1 (by rw [hl]; simp)⟩
+  | recv inp parse =>
+    obtain ⟨v, fh, d, h⟩ := recv_st { cfg := cfg, s := s } inp parse
+    have hk : ∀ p, parse v fh d = .ok p → p.kind.nibble = fh / 16 := fun p hp => (hwf v fh d p hp).1
+    cases h with
+    | keep a => exact absurd (a _ h1) h2
+    | ack p hx ht hm a b =>
+      have h3 : (id, q) ∉ storeErase p.ver (ackKind (fh / 16)) (p.pid.getD 0) s.store := fun h => h2 (b _ h)
+      obtain ⟨e1, q0, e2, e3, e4⟩ := storeErase_removed h1 h3
+      obtain ⟨k1, k2⟩ := ackKind_of_nibble (hk p hx) ht
+      simp only at e1
+      refine .acked p q0 (by simpa [step] using a) k2 e1.symm ?_ (by rw [e1]; exact e2) (by rw [e3, k1]) e4
+      rw [hk p hx, e1]; exact hm
+    | resume p hx ht hr hs a b =>
+      have hkc : p.kind = .connack := by
+        have := hk p hx; rw [ht] at this; exact nibble_inj this
+      refine .oversizeOnResume (.inr ⟨p, by simpa [step] using a, hkc, hr, hs⟩) ?_
+      have : (id, q) ∉ fits cfg.pw (step cfg s (.recv inp parse)).s.mpsSend s.store := by
+        have := b ▸ h2; exact this
+      rw [mem_fits] at this
+      have h3 : ¬ q.sz cfg.pw ≤ (step cfg s (.recv inp parse)).s.mpsSend := fun h => this ⟨h1, h⟩
+      omega
+    | newSess p hx hn a b =>
+      refine .newSessionRecv p (by simpa [step] using a) ?_ b
+      have := hk p hx
+      rcases hn with ⟨ht, hc⟩ | ⟨ht, hr⟩
+      · rw [ht] at this; exact .inl ⟨nibble_inj this, hc⟩
+      · rw [ht] at this; exact .inr ⟨nibble_inj this, hr⟩
+  | timer k => exact absurd (by simpa [step] using h1) h2
+  | closed =>
+    cases hn : s.needStore
+    · exact .closedNonPersistent rfl hn (by simp [step, notifyClosed_store, hn])
+    · exact absurd (by simpa [step, notifyClosed_store, hn] using h1) h2
+  | setInterval d => exact absurd (by simpa [step] using h1) h2
+  | setFlag f b => exact absurd (by cases f <;> simpa [step, setFlag] using h1) h2
+  | setRespTimeout ms => exact absurd (by simpa [step] using h1) h2
+  | acquire => exact absurd (by simpa [step] using h1) h2
+  | register id => exact absurd (by simpa [step] using h1) h2
+  | release id => exact absurd (by simpa [step] using h1) h2
+  | erase id' =>
+    obtain ⟨e1, q0, e2, e3⟩ := eraseStoredPublish_leaves { cfg := cfg, s := s } id' h1 h2
+    simp only at e1
+    subst e1
+    exact .erased q0 rfl e2 e3
+  | restoreHandled ids => exact absurd (by simpa [step] using h1) h2
+  | restorePackets ps => exact absurd (restorePackets_mono { cfg := cfg, s := s } ps h1) h2
+
+
+/-- NOT PROVED (time budget): while an entry stays stored its identifier stays in use, under the
+    ownership hypothesis (the identifier is awaited only in the wait set matching the entry, the
+    entry has the connection's version, and the application neither releases the identifier nor
+    reuses it for another PUBLISH / SUBSCRIBE / UNSUBSCRIBE). -/
+def C06_id_held_full : Prop :=
+  ∀ (cfg : Cfg) (s : St) (op : Op) (id : Nat) (q : Pkt), OpWf op →
+    (id, q) ∈ s.store → (id, q) ∈ (step cfg s op).s.store → isUsed s id = true →
+    id ∉ s.suback → id ∉ s.unsuback → q.ver = s.ver →
+    (∀ t, id ∈ waitSet s t → respOf q = ackKind t ∧ (t = 4 ∨ t = 5 ∨ t = 7)) →
+    op ≠ .release id → (∀ p, op = .send p → p.pid.getD 0 ≠ id) →
+    isUsed (step cfg s op).s id = true
+
+/-! ## (5) no session: the store is emptied and its identifiers are freed -/
+
+/-- store empty, wait sets empty, every packet identifier free -/
+def Cleared (s : St) : Prop :=
+  s.store = [] ∧ s.puback = [] ∧ s.pubrec = [] ∧ s.pubcomp = [] ∧ ∀ id, isUsed s id = false
+
+theorem isUsed_clear (a : Alloc.A) (v : Nat) : Alloc.isUsed (Alloc.clear a) v = false := by
+  simp only [Alloc.isUsed, Alloc.clear, Alloc.Free]
+  by_cases h1 : a.lowest ≤ v
+  · by_cases h2 : v ≤ a.highest
+    · simp [h1, h2]
+    · simp [h2]
+  · simp [h1]
+
+theorem cleared_of_clear {s : St} {c : C} (h1 : s.store = (clearStoreRelated c).s.store)
+    (h2 : s.puback = (clearStoreRelated c).s.puback) (h3 : s.pubrec = (clearStoreRelated c).s.pubrec)
+    (h4 : s.pubcomp = (clearStoreRelated c).s.pubcomp) (h5 : s.pidMan = (clearStoreRelated c).s.pidMan) :
+    Cleared s := by
+  refine ⟨by rw [h1]; rfl, by rw [h2]; rfl, by rw [h3]; rfl, by rw [h4]; rfl, fun id => ?_⟩
+  simp only [isUsed, h5, clearStoreRelated]
+  exact isUsed_clear _ _
+
+/-- **C06 (5)**, client: CONNACK(Accepted / Success) received with session present = false. -/
+theorem C06_no_session_clears_connack {cfg : Cfg} {s : St} {inp : List Nat} {pb' : Framing.PB} {fh : Nat}
+    {data : List Nat} (parse : Nat → Nat → List Nat → Except Nat Pkt) {p : Pkt}
+    (h : Delivers cfg s inp pb' fh data) (ht : fh / 16 = 2) (hv : s.ver = 4 ∨ s.ver = 5)
+    (hp : parse s.ver fh data = .ok p) (hrc : p.rc = some 0) (hsp : p.sp = false) (hst : s.status ≠ .connected) :
+    Cleared (step cfg s (.recv inp parse)).s := by
+  rw [step_recv_of_delivers h, ht, hp]
+  rcases hv with hv | hv
+  · simp only [dispatchRecv, hv, if_true, prV3Connack, hst, if_false, hrc, hsp, push_s]
+    exact cleared_of_clear rfl rfl rfl rfl rfl
+  · simp only [dispatchRecv, hv, prV5Connack, hst, if_false, hrc, hsp, push_s]
+    exact cleared_of_clear rfl rfl rfl rfl rfl
+
+/-- **C06 (5)**: CONNECT with clean start / clean session accepted for sending. -/
+theorem C06_no_session_clears_connect (cfg : Cfg) (s : St) (p : Pkt)
+    (hk : p.kind = .connect) (hv : p.ver = s.ver) (hrole : cfg.role ≠ .server) (hc : p.clean = true)
+    (hst : s.status = .disconnected) (hsz : p.ver = 4 ∨ p.sz cfg.pw ≤ s.mpsSend) :
+    Cleared (step cfg s (.send p)).s := by
+  have hr : roleMaySend cfg.role p = true := by
+    cases h : cfg.role <;> simp_all [roleMaySend]
+  simp only [step, send, processSend, hk, hv, hr]
+  by_cases h4 : p.ver = 4
+  · simp only [h4, ← hv, psV3Connect, hst, hc]
+    simp only [ne_eq, not_true_eq_false, if_false, Bool.not_true, Bool.false_eq_true, if_true]
+    refine cleared_of_clear (c := initConn { cfg := cfg, s := { s with status := .connecting, keepAliveMs := p.keepAlive * 1000 } } true)
+      ?_ ?_ ?_ ?_ ?_ <;> simp [clearStoreRelated, initConn]
+  · have hs : sizeOk { cfg := cfg, s := s } p = true := by
+      rcases hsz with h | h
+      · exact absurd h h4
+      · simp [sizeOk]; omega
+    simp only [h4, ← hv, psV5Connect, hst, hc, hs]
+    simp only [ne_eq, not_true_eq_false, if_false, Bool.not_true, Bool.false_eq_true, if_true]
+    refine cleared_of_clear (c := initConn { cfg := cfg, s := { s with status := .connecting, keepAliveMs := p.keepAlive * 1000 } } true)
+      ?_ ?_ ?_ ?_ ?_ <;>
+      simp [propsFold_frame (fun c => c.s.store), propsFold_frame (fun c => c.s.puback),
+        propsFold_frame (fun c => c.s.pubrec), propsFold_frame (fun c => c.s.pubcomp),
+        propsFold_frame (fun c => c.s.pidMan), clearStoreRelated, initConn]
+
+/-! ## (4) resume: the stored packets are resent, in store order, right after the CONNACK -/
+
+@[simp] theorem connackRecvProp_sends (c : C) (i v : Nat) : sends (connackRecvProp c i v).ev = sends c.ev := by
+  frame_tac connackRecvProp
+
+/-- **C06 (4)**, client v3.1.1: CONNACK(Accepted, session present) received while not connected:
+    the `RequestSendPacket` events of the call are exactly the stored packets that fit the peer's
+    Maximum Packet Size, in store order (the stored copies themselves: same identifiers), and
+    exactly those stay stored. -/
+theorem C06_resume_resends_client_v3 {cfg : Cfg} {s : St} {inp : List Nat} {pb' : Framing.PB} {fh : Nat}
+    {data : List Nat} (parse : Nat → Nat → List Nat → Except Nat Pkt) {p : Pkt}
+    (h : Delivers cfg s inp pb' fh data) (ht : fh / 16 = 2) (hv : s.ver = 4)
+    (hp : parse 4 fh data = .ok p) (hrc : p.rc = some 0) (hsp : p.sp = true) (hst : s.status ≠ .connected) :
+    sends (step cfg s (.recv inp parse)).ev = (fits cfg.pw s.mpsSend s.store).map (·.2) ∧
+    (step cfg s (.recv inp parse)).s.store = fits cfg.pw s.mpsSend s.store := by
+  rw [step_recv_of_delivers h, ht, hv, hp]
+  simp only [dispatchRecv, hv, if_true, prV3Connack, hst, if_false, hrc, hsp, push_s, push_ev]
+  simp [sendStored_sends, sendStored_store]
+
+/-- **C06 (4)**, client v5.0 (CONNACK without Session Expiry Interval 0): as above, the limit being
+    the Maximum Packet Size in force after the CONNACK's properties were applied. -/
+theorem C06_resume_resends_client_v5 {cfg : Cfg} {s : St} {inp : List Nat} {pb' : Framing.PB} {fh : Nat}
+    {data : List Nat} (parse : Nat → Nat → List Nat → Except Nat Pkt) {p : Pkt}
+    (h : Delivers cfg s inp pb' fh data) (ht : fh / 16 = 2) (hv : s.ver = 5)
+    (hp : parse 5 fh data = .ok p) (hrc : p.rc = some 0) (hsp : p.sp = true) (hst : s.status ≠ .connected)
+    (hsei : (pSEI, 0) ∉ p.props) :
+    sends (step cfg s (.recv inp parse)).ev =
+      (fits cfg.pw (step cfg s (.recv inp parse)).s.mpsSend s.store).map (·.2) ∧
+    (step cfg s (.recv inp parse)).s.store = fits cfg.pw (step cfg s (.recv inp parse)).s.mpsSend s.store := by
+  have e : step cfg s (.recv inp parse) =
+      (sendStored (propsFold connackRecvProp
+        { cfg := cfg, s := { ({ s with pb := pb' } : St) with status := .connected } } p.props)).push (.recv p) := by
+    rw [step_recv_of_delivers h, ht, hv, hp]
+    simp [dispatchRecv, hv, prV5Connack, hst, hrc, hsp]
+  have hstore := propsFold_connackRecvProp_store
+    { cfg := cfg, s := { ({ s with pb := pb' } : St) with status := .connected } } p.props
+  rcases hstore with hs | ⟨_, hm⟩
+  · rw [e]
+    simp only [push_ev, push_s, sends_append, sendStored_sends, sendStored_store, sendStored_mpsSend,
+      connackRecvProp_mpsSend_cfg, hs,
+      propsFold_frame (fun c => sends c.ev) connackRecvProp connackRecvProp_sends]
+    simp
+  · exact absurd hm hsei
+
+/-- **C06 (4)**, server: a successful CONNACK accepted for sending: the `RequestSendPacket` events
+    are the CONNACK itself followed by the stored packets that fit, in store order — nothing else
+    before them.  (Whatever `session_present` says: see `finding20_…` below.) -/
+theorem C06_resume_resends_server (cfg : Cfg) (s : St) (p : Pkt)
+    (hk : p.kind = .connack) (hv : p.ver = s.ver) (hrole : cfg.role ≠ .client) (hrc : p.rc = some 0)
+    (hst : s.status = .connecting) (hsz : p.ver = 4 ∨ p.sz cfg.pw ≤ s.mpsSend) :
+    sends (step cfg s (.send p)).ev = p :: (fits cfg.pw s.mpsSend s.store).map (·.2) ∧
+    (step cfg s (.send p)).s.store = fits cfg.pw s.mpsSend s.store := by
+  have hr : roleMaySend cfg.role p = true := by
+    cases h : cfg.role <;> simp_all [roleMaySend]
+  simp only [step, send, processSend, hk, hv, hr]
+  by_cases h4 : p.ver = 4
+  · simp only [h4, ← hv, psV3Connack, hst, hrc]
+    simp [sendStored_sends, sendStored_store]
+  · have hs : sizeOk { cfg := cfg, s := s } p = true := by
+      rcases hsz with h | h
+      · exact absurd h h4
+      · simp [sizeOk]; omega
+    simp only [h4, ← hv, psV5Connack, hst, hrc, hs]
+    simp [sendStored_sends, sendStored_store, propsFold_frame (fun c => sends c.ev),
+      propsFold_frame (fun c => c.s.store), propsFold_frame (fun c => c.s.mpsSend), propsFold_frame (fun c => c.cfg)]
+
+/-- what the store copy of a v5.0 PUBLISH looks like when `send` creates it (`psV5Publish`): DUP
+    set, no Topic Alias property, topic taken from the packet or — for an alias-only packet —
+    from the alias table.  PARTIAL: the full `C06_stored_publish_regulated` (an invariant of the
+    store preserved by every call, with a hypothesis on `restorePackets`' input and the
+    alias-table invariant "registered topics are non-empty") was not proved in the time budget. -/
+def C06_stored_publish_regulated_full : Prop :=
+  ∀ cfg ver ops, (∀ op ∈ ops, OpWf op ∧ ∀ ps, op = .restorePackets ps →
+      ∀ q ∈ ps, q.kind = .publish → q.ver = 5 → q.dup = true ∧ q.topic ≠ [] ∧ q.alias = none) →
+    ∀ e ∈ (run cfg (St.init cfg ver) ops).store, e.2.kind = .publish → e.2.ver = 5 →
+      e.2.dup = true ∧ e.2.topic ≠ [] ∧ e.2.alias = none
+
+theorem C06_stored_publish_regulated_partial (c : C) (id : Nat) (p : Pkt) (site : String) (topic : List Nat)
+    (e : Nat × Pkt) (h : e ∈ (storeAdd c id { p with topic := topic, alias := none, dup := true } site).s.store) :
+    e ∈ c.s.store ∨ (e.2.dup = true ∧ e.2.alias = none ∧ e.2.topic = topic ∧ e.1 = id) := by
+  rcases storeAdd_store c id { p with topic := topic, alias := none, dup := true } site with h' | h' <;>
+    rw [h'] at h
+  · exact .inl h
+  · simp at h
+    rcases h with h | rfl
+    · exact .inl h
+    · exact .inr ⟨rfl, rfl, rfl, rfl⟩
+
+/-! ## honest obstacles: `decide`-checked witnesses on the current model -/
+namespace C06Ex
+
+def pidUsed1 (pw : Nat) : Alloc.A := (Alloc.useValue (Alloc.new 1 (256 ^ pw - 1) (256 ^ pw - 1)) 1).2
+def pub4 : Pkt := { ver := 4, kind := .publish, qos := 1, pid := some 1, dup := true, topic := [97], size := 7 }
+
+/-- (a) DESIGN finding #20 is real on the current model: a server that SENDS
+    CONNACK(Accepted, session_present = false) still resends the store (`psV3Connack` ignores
+    `p.sp`), and keeps it. -/
+def cfgS : Cfg := ⟨.server, 2⟩
+def cfgC : Cfg := ⟨.client, 2⟩
+def sSrv : St :=
+  { St.init cfgS 4 with status := .connecting, needStore := true, store := [(1, pub4)], puback := [1], pidMan := pidUsed1 2 }
+def connackNoSession : Pkt := { ver := 4, kind := .connack, rc := some 0, sp := false, size := 4 }
+theorem finding20_server_connack_sp_false_still_resends :
+    (step cfgS sSrv (.send connackNoSession)).ev = [.send connackNoSession none, .send pub4 none] ∧
+    (step cfgS sSrv (.send connackNoSession)).s.store = [(1, pub4)] := by decide
+
+/-- (b) a v5.0 PUBREC with the *success* reason code 0x10 (No matching subscribers) is treated as
+    a failure (`success := rc = none ∨ rc = some 0`): the exchange is abandoned — identifier
+    released, no PUBREL even with automatic responses — although MQTT 5 §3.5.2.1 counts every
+    code < 0x80 as success. -/
+def sCli : St :=
+  { St.init cfgC 5 with status := .connected, autoPub := true, pubrec := [1], pidMan := pidUsed1 2 }
+def pubrec0x10 : Pkt := { ver := 5, kind := .pubrec, pid := some 1, rc := some 0x10, size := 5 }
+def parseRec : Nat → Nat → List Nat → Except Nat Pkt := fun _ _ _ => .ok pubrec0x10
+theorem pubrec_0x10_releases_id :
+    (step cfgC sCli (.recv [0x50, 3, 0, 1, 0x10] parseRec)).ev = [.released 1, .recv pubrec0x10] ∧
+    isUsed (step cfgC sCli (.recv [0x50, 3, 0, 1, 0x10] parseRec)).s 1 = false := by decide
+
+/-! ### non-vacuity of the theorems' hypotheses -/
+def parseAck : Nat → Nat → List Nat → Except Nat Pkt := fun v fh _ =>
+  if fh / 16 = 4 then .ok { ver := v, kind := .puback, pid := some 1, size := 4 }
+  else if fh / 16 = 2 then .ok { ver := v, kind := .connack, rc := some 0, sp := true, size := 4 }
+  else .error eMalformed
+theorem parseAck_ok : ParseOk parseAck := by
+  intro v fh d p h
+  simp only [parseAck] at h
+  split at h
+  · rename_i h4; cases h; simp [Kind.nibble, h4]
+  · split at h
+    · rename_i h2; cases h; simp [Kind.nibble, h2]
+    · cases h
+def sC4 (st : Status) (wait : List Nat) : St :=
+  { St.init cfgC 4 with status := st, needStore := true, store := [(1, pub4)], puback := wait, pidMan := pidUsed1 2 }
+theorem deliversAck (st : Status) (w : List Nat) : Delivers cfgC (sC4 st w) [0x40, 2, 0, 1] {} 0x40 [0, 1] :=
+  ⟨⟨[], rfl⟩, by show totalSize 2 ≤ noLimit; decide, rfl, by show (4 : Nat) ≠ 0; decide⟩
+theorem deliversConnack (w : List Nat) : Delivers cfgC (sC4 .connecting w) [0x20, 2, 1, 0] {} 0x20 [1, 0] :=
+  ⟨⟨[], rfl⟩, by show totalSize 2 ≤ noLimit; decide, rfl, by show (4 : Nat) ≠ 0; decide⟩
+
+-- (1) accepted QoS 1 PUBLISH on a persistent, connected session: sent AND stored
+example := C06_accepted_publish_not_dropped cfgC { sC4 .connected [] with store := [] }
+  { pub4 with dup := false } 1 rfl (.inl rfl) rfl
+  (by intro e h
+      have : (step cfgC { sC4 .connected [] with store := [] } (.send { pub4 with dup := false })).ev =
+        [.send { pub4 with dup := false } none] := by decide
+      rw [this] at h; simp at h)
+-- (2) the matching PUBACK removes the entry: hypotheses hold, cause (i)
+example := C06_stored_until_acked cfgC (sC4 .connected [1]) (.recv [0x40, 2, 0, 1] parseAck) parseAck_ok 1 pub4
+  (by decide) (by decide)
+-- (3) unmatched PUBACK (nothing awaited)
+example := C06_unmatched_ack_is_error_noop_v3 parseAck (deliversAck .connected []) rfl rfl (.inl (by decide)) (by decide)
+-- (4) resume
+example := C06_resume_resends_client_v3 parseAck (deliversConnack [1]) (by decide) rfl rfl rfl rfl (by decide)
+example : sends (step cfgC (sC4 .connecting [1]) (.recv [0x20, 2, 1, 0] parseAck)).ev = [pub4] := by decide
+example := C06_resume_resends_server cfgS sSrv connackNoSession rfl rfl (by decide) rfl rfl (.inl rfl)
+-- (5) no session
+example := C06_no_session_clears_connect cfgC (sC4 .disconnected [1]) { ver := 4, kind := .connect, clean := true }
+  rfl rfl (by decide) rfl rfl (.inl rfl)
+
+end C06Ex
 
 end MqttVerif.Conn
